@@ -105,7 +105,7 @@ pub fn run(ctx: &mut Ctx) {
         let input: Vec<u8> = seq.iter().flat_map(|t| toks[*t].iter().copied()).collect();
         for (macros, fnc1) in [(true, false), (false, false), (true, true), (false, true)] {
             if ctx.mine(item) {
-                eval(ctx, &EncCase { input: input.clone(), list: "default".into(), mask: 63, macros, fnc1, eci: None }, "token_sequences_exhaustive");
+                eval(ctx, &EncCase { input: input.clone(), list: "default".into(), mask: 63, macros, fnc1, eci: None, order: 0 }, "token_sequences_exhaustive");
             }
             item += 1;
         }
@@ -120,7 +120,7 @@ pub fn run(ctx: &mut Ctx) {
             for start in 0..=1 {
                 if start <= cut && ctx.mine(item) {
                     for mask in [63u8, 62, 32, 2] {
-                        eval(ctx, &EncCase { input: full[start..cut].to_vec(), list: "default".into(), mask, macros: true, fnc1: false, eci: None }, "truncations");
+                        eval(ctx, &EncCase { input: full[start..cut].to_vec(), list: "default".into(), mask, macros: true, fnc1: false, eci: None, order: 0 }, "truncations");
                     }
                 }
                 item += 1;
@@ -131,7 +131,7 @@ pub fn run(ctx: &mut Ctx) {
     for i in 0..n {
         let input = if i % 4 == 3 { inputs::gen_input(&mut ctx.rng, 200) } else { inputs::macro_material(&mut ctx.rng, 60) };
         let (list, mask) = if ctx.rng.chance(1, 2) { ("default".to_string(), 63) } else { (inputs::gen_list_spec(&mut ctx.rng), inputs::gen_mask(&mut ctx.rng)) };
-        let c = EncCase { input, list, mask, macros: !ctx.rng.chance(1, 4), fnc1: ctx.rng.chance(1, 5), eci: None };
+        let c = EncCase { input, list, mask, macros: !ctx.rng.chance(1, 4), fnc1: ctx.rng.chance(1, 5), eci: None, order: 0 };
         eval(ctx, &c, "generated");
     }
 }
